@@ -596,17 +596,21 @@ fn build_empty_stco() -> Vec<u8> {
 fn build_hvcc_fmp4(config: &FragmentConfig) -> Vec<u8> {
     let num_arrays: u8 = if config.vps.is_some() { 3 } else { 2 };
 
+    // Profile/tier/level come from the SPS, reserved bits are all ones, as in the
+    // progressive writer's hvcC.
+    let general_byte = config.sps.get(3).copied().unwrap_or(1);
+    let general_level_idc = config.sps.get(14).copied().unwrap_or(93);
     let mut payload = vec![
-        1, // configuration_version
-        0, // general_profile_space (2 bits), general_tier_flag (1 bit), general_profile_idc (5 bits) - using defaults
-        0, 0, 0, 0, // general_profile_compatibility_flags
-        0, 0, 0, 0, 0, 0, // general_constraint_indicator_flags
-        0, // general_level_idc - using default
-        0, 0, // min_spatial_segmentation_idc
-        0, // parallelismType
-        0, // chromaFormat
-        0, // bitDepthLumaMinus8
-        0, // bitDepthChromaMinus8
+        1,            // configuration_version
+        general_byte, // general_profile_space (2), general_tier_flag (1), general_profile_idc (5)
+        0x60, 0x00, 0x00, 0x00, // general_profile_compatibility_flags
+        0x90, 0x00, 0x00, 0x00, 0x00, 0x00, // general_constraint_indicator_flags
+        general_level_idc,
+        0xf0, 0x00, // reserved (4) + min_spatial_segmentation_idc (12)
+        0xfc, // reserved (6) + parallelismType (2)
+        0xfd, // reserved (6) + chromaFormat (2) = 4:2:0
+        0xf8, // reserved (5) + bitDepthLumaMinus8 (3)
+        0xf8, // reserved (5) + bitDepthChromaMinus8 (3)
         0, 0,          // avgFrameRate
         0x07, // constantFrameRate=0, numTemporalLayers=0, temporalIdNested=1, lengthSizeMinusOne=3 (4-byte lengths)
         num_arrays, // numOfArrays
